@@ -69,7 +69,7 @@ Definition effect_names (e : effect) : list string :=
   match e with
   | EGuard k | EAppend k | ERequire k => [k]
   | EClassSet _ n _ | EInstSet _ n _ | EProbeSet _ n _ | EProbeDel _ n
-  | EGetDefaultSet _ n _ | ERead _ n | ETouchPublic n => [n]
+  | EGetDefaultSet _ n _ | ERead _ n | ETouchPublic n | ESub _ n _ => [n]
   | ECall _ => []
   end.
 Definition script_names (effs : list effect) : list string := concat (map effect_names effs).
@@ -153,6 +153,7 @@ Inductive reffect :=
 | RGetDefaultSet (t : target) (n : N) (k : vkind)
 | RRead (t : target) (n : N)
 | RTouchPublic (n : N)
+| RSub (t : target) (n : N) (k : vkind)
 | RCall (f : string).
 
 Definition resolve (e : effect) : reffect :=
@@ -165,6 +166,7 @@ Definition resolve (e : effect) : reffect :=
   | EGetDefaultSet t n k => RGetDefaultSet t (nid n) k
   | ERead t n => RRead t (nid n)
   | ETouchPublic n => RTouchPublic (nid n)
+  | ESub t n k => RSub t (nid n) k
   | ECall f => RCall f
   end.
 Definition rscripts : list (string * list reffect) := Eval vm_compute in
@@ -259,13 +261,19 @@ Inductive obj :=
 | OInst (T : table) (a : atom) (n : N)   (* allocated by the loader write into T.a.n *)
 | OShared (a : atom) (n : N)             (* module-level object, the same for every table *)
 | ODefault (T : table) (n : N)           (* class-level default allocated by init(T) *)
-| OCache (T : table) (a : atom) (n : N). (* object a computed property builds for, and keeps in, T.a *)
+| OCache (T : table) (a : atom) (n : N)  (* object a computed property builds for, and keeps in, T.a *)
+| OSub (T : table) (a : atom) (n : N)    (* the objects hanging below the object of T.a.n, allocated with it or by
+                                            it on first access: magnetic_ff[charge], neutron_activation[i], the
+                                            array of xray.sftable *)
+| OSubShared (a : atom) (n : N).         (* the same, when they are module-level objects (one per element) *)
 Definition ocode (o : obj) : N :=
   match o with
   | OInst T a n => ikey T a n
   | OShared a n => 100000 + acode a * 1000 + n
   | ODefault T n => 200000 + tcode T * 1000 + n
   | OCache T a n => 300000 + ikey T a n
+  | OSub T a n => 400000 + ikey T a n
+  | OSubShared a n => 500000 + acode a * 1000 + n
   end.
 Definition mkey (o : obj) (T : table) : N := ocode o * 4 + tcode T.
 
@@ -280,10 +288,48 @@ Definition val_of (T : table) (a : atom) (n : N) (v : ival) : rres :=
   | IUser => RVal (CtUser T) None
   end.
 
+(* the element an isotope / ion is an isotope / ion of *)
+Definition root (a : atom) : atom :=
+  match a with
+  | I11 | I01 | XE1 | XI11 | XI01 => E1
+  | I00 | XE0 => E0
+  | _ => a
+  end.
+Definition xray_id : N := nid "xray".
+Definition vk_max (a b : vkind) : vkind :=
+  match a, b with
+  | VKShared, _ | _, VKShared => VKShared
+  | VKAlloc, _ | _, VKAlloc => VKAlloc
+  | _, _ => VKImm
+  end.
+(* what hangs below the object stored under name n: nothing mutable (VKImm), objects allocated with / by that
+   object (VKAlloc), module-level objects (VKShared); from the ESub effects of the scripts, and for xray from
+   Xray._gettable (Gen: xray_sftable) *)
+Definition sub_kinds : list (N * vkind) := Eval vm_compute in
+  (xray_id, xray_sftable)
+  :: concat (map (fun p => concat (map (fun e => match e with RSub _ n k => [(n, k)] | _ => [] end) (snd p))) rscripts).
+Definition sub_kind (n : N) : vkind :=
+  fold_left (fun acc p => if N.eqb (fst p) n then vk_max acc (snd p) else acc) sub_kinds VKImm.
+Definition subs (o : obj) : list obj :=
+  match o with
+  | OInst T a n | OCache T a n =>
+      match sub_kind n with
+      | VKImm => []
+      | VKAlloc => [OSub T a n]
+      | VKShared => [OSubShared (root a) n]
+      end
+  | _ => []
+  end.
+
+Definition marked_one (x : gstate) (o : obj) (T : table) : bool := smem (mkey o T) (mk x).
+(* the tables whose in-place mutation shows in the object or in what hangs below it *)
 Definition marked_by (x : gstate) (o : obj) : list table :=
-  filter (fun T => smem (mkey o T) (mk x)) all_tables.
-Definition add_mark (x : gstate) (o : obj) (T : table) : gstate :=
+  filter (fun T => marked_one x o T || existsb (fun q => marked_one x q T) (subs o)) all_tables.
+Definition add_mark1 (x : gstate) (o : obj) (T : table) : gstate :=
   mkG (cm x) (im x) (pr x) (sadd (mkey o T) (mk x)).
+(* an in-place mutation reaches the object and everything below it *)
+Definition add_mark (x : gstate) (o : obj) (T : table) : gstate :=
+  fold_left (fun x0 q => add_mark1 x0 q T) (subs o) (add_mark1 x o T).
 
 (* ------------------------------------------------------------------ computed properties *)
 (* what a computed property reads: (through self.element?, name).  Hand-written from mass.mass,
@@ -305,8 +351,6 @@ Definition rdeps : list (N * (cls -> list (bool * N))) :=
       ["mass"; "abundance"; "density"; "number_density"; "interatomic_distance"].
 Definition deps_of (n : N) (c : cls) : list (bool * N) :=
   match find (fun p => N.eqb (fst p) n) rdeps with Some p => snd p c | None => [] end.
-Definition xray_id : N := nid "xray".
-
 (* ------------------------------------------------------------------ the protocol *)
 Definition FUEL : nat := 12.
 
@@ -417,6 +461,7 @@ Section Interp.
                    | (x1, RErr AttrErr) | (x1, RVal _ _) => run_effs key T rest x1
                    | (x1, RErr e) => (x1, Some e)
                    end
+          | RSub _ _ _ => run_effs key T rest x      (* which objects hang below atom.n: static, see sub_kind *)
           | RCall f => continue (INIT f T x)
           end
       end.
